@@ -16,7 +16,7 @@
      n=<number of write requests> sp=<resume position before>
      <request> sp=<resume position after this request>            one per request
   request = hset <db> <key> f:v,… | hsetnx … | hdel <db> <key> f,… | del <db> key,…
-  position = none | err | <offset>@<db>
+  position = none | err | <offset>@<db> | tie (two databases hold the same offset and mtime)
 -/
 import GunYu.Model.Checkpoint
 import GunYu.Model.Migrate
@@ -112,7 +112,11 @@ def render (tag : String) (ver : Bytes) (ids : List Bytes) (dbs : List Nat) (t :
     (rs : List Req) : List String :=
   -- a start enumerates the non-empty databases: those of the state plus those written to
   let dbs := dbs ++ (rs.map reqDb).filter (fun d => ¬ dbs.contains d)
-  let sp := fun t => spStr (startPoint ver ids dbs t)
+  -- an exact tie between two databases is decided by the iteration order: reported as "tie"
+  let sp := fun t =>
+    let a := startPoint ver ids dbs t
+    let b := startPoint ver ids dbs.reverse t
+    if a = b then spStr a else "tie"
   let rec go (t : Target) : List Req → List String
     | [] => []
     | r :: rest =>
